@@ -98,9 +98,13 @@ func applyJSON(doc document.Document, entry interface{}) (document.Document, err
 		return nil, err
 	}
 
-	docBytes, err = jsonPatches.Apply(docBytes)
-	if err != nil {
-		return nil, err
+	// apply one operation at a time so that every operation works on a freshly parsed document:
+	// the library shares nodes between the source and target of copy/move within one Apply call
+	for _, p := range jsonPatches {
+		docBytes, err = jsonpatch.Patch{p}.Apply(docBytes)
+		if err != nil {
+			return nil, err
+		}
 	}
 
 	return document.FromBytes(docBytes)
